@@ -153,7 +153,7 @@ func propC16(c *Ctx) {
 		gsFields := structFields(c, hostTypes, "GenesisState")
 		brFields := structFields(c, hostTypes, "Bridge")
 		nOK := 0
-		for _, p := range c.Paths(exp, PO{Params: []string{"k", "ctx"}, Callbacks: true}) {
+		for _, p := range c.Paths(exp, PO{Params: []string{"k", "ctx"}, Callbacks: true, Depth: 9}) {
 			o.Paths++
 			o.Facts += p.NFacts()
 			if p.Panic || len(p.RetVal) != 1 {
@@ -237,12 +237,34 @@ func propC16(c *Ctx) {
 		if nOK == 0 {
 			o.Fail(c.W.Pos(exp.Pos()), "no returning path", nil)
 		}
+		oc := c.Ob("C16.R2", "ophost ExportGenesis: every enumerated element reaches its list (no early stop, no skipped element)")
+		for _, p := range c.Paths(exp, PO{Params: []string{"k", "ctx"}, Callbacks: true, Depth: 9, WalkRounds: 2}) {
+			oc.Paths++
+			if p.Panic || len(p.RetVal) != 1 {
+				continue
+			}
+			set := fieldsSet(p.RetVal[0])
+			lists := map[string][]*Term{"BridgeConfigs": listElems(set["Bridges"]), "OutputProposals": nil, "ProvenWithdrawals": nil, "TokenPairs": nil, "BatchInfos": nil}
+			raws := map[string]*Term{"BridgeConfigs": set["Bridges"]}
+			for _, e := range lists["BridgeConfigs"] {
+				bs := fieldsSet(e)
+				raws["OutputProposals"], raws["ProvenWithdrawals"], raws["TokenPairs"], raws["BatchInfos"] = bs["Proposals"], bs["ProvenWithdrawals"], bs["TokenPairs"], bs["BatchInfos"]
+				lists["OutputProposals"] = append(lists["OutputProposals"], listElems(bs["Proposals"])...)
+				lists["ProvenWithdrawals"] = append(lists["ProvenWithdrawals"], listElems(bs["ProvenWithdrawals"])...)
+				lists["TokenPairs"] = append(lists["TokenPairs"], listElems(bs["TokenPairs"])...)
+				lists["BatchInfos"] = append(lists["BatchInfos"], listElems(bs["BatchInfos"])...)
+			}
+			exportComplete(c, oc, c.W.Pos(exp.Pos()), p, lists, raws)
+		}
+		if oc.Sites < 5 {
+			oc.Fail(c.W.Pos(exp.Pos()), fmt.Sprintf("only %d enumerations found on returning export paths (floor 5)", oc.Sites), nil)
+		}
 		// record construction inside the iterate helpers / callbacks: WrappedOutput, TokenPair
 		o2 := c.Ob("C16.R2", "ophost export records: WrappedOutput{OutputIndex: key.K2(), OutputProposal: value}; TokenPair{L1Denom: value, L2Denom: key.K2()}; per-bridge prefix ranges")
-		for _, p := range c.Paths(exp, PO{Params: []string{"k", "ctx"}, Callbacks: true}) {
+		for _, p := range c.Paths(exp, PO{Params: []string{"k", "ctx"}, Callbacks: true, Depth: 9}) {
 			for i := range p.Events {
 				ev := &p.Events[i]
-				if f, m, ok := collOp(ev); ok && m == "Walk" {
+				if f, m, ok := collOp(ev); ok && (m == "Walk" || m == "Iterate") {
 					o2.Sites++
 					rng := strip(ev.Call.Args[2])
 					switch f {
@@ -538,7 +560,7 @@ func propC16(c *Ctx) {
 				for _, e := range listElems(set[f]) {
 					okSrc := false
 					e.Walk(func(x *Term) bool {
-						if x.Op == "opaque" && strings.HasPrefix(x.Name, "cbarg") && len(x.Args) == 1 && strings.Contains(x.Args[0].Key(), coll) {
+						if x.Op == "opaque" && strings.HasPrefix(x.Name, "cbarg") && len(x.Args) >= 1 && strings.Contains(x.Args[0].Key(), coll) {
 							okSrc = true
 						}
 						return !okSrc
@@ -566,6 +588,19 @@ func propC16(c *Ctx) {
 		}
 		if nOK == 0 {
 			o2.Fail(c.W.Pos(exp.Pos()), "no returning path", nil)
+		}
+		oc := c.Ob("C16.R2", "opchild ExportGenesis: every enumerated element reaches its list (no early stop, no skipped element)")
+		for _, p := range c.Paths(exp, PO{Params: []string{"k", "ctx"}, Callbacks: true, WalkRounds: 2, NoInline: []string{"GetAllValidators", "Keeper).GetNextL1Sequence", "Keeper).GetNextL2Sequence"}}) {
+			oc.Paths++
+			if p.Panic || len(p.RetVal) != 1 {
+				continue
+			}
+			set := fieldsSet(p.RetVal[0])
+			exportComplete(c, oc, c.W.Pos(exp.Pos()), p, map[string][]*Term{"LastValidatorPowers": listElems(set["LastValidatorPowers"]), "DenomPairs": listElems(set["DenomPairs"])},
+				map[string]*Term{"LastValidatorPowers": set["LastValidatorPowers"], "DenomPairs": set["DenomPairs"]})
+		}
+		if oc.Sites < 2 {
+			oc.Fail(c.W.Pos(exp.Pos()), fmt.Sprintf("only %d enumerations found on returning export paths (floor 2)", oc.Sites), nil)
 		}
 	})
 
@@ -768,3 +803,81 @@ func (p *Path) factIsOrRet(call *Term) bool {
 }
 
 var _ *ssa.Function
+
+// exportComplete: on a returning export path every enumeration (Walk callback invocation or
+// cursor position) of the listed collections contributes exactly one record to its list, a
+// Walk callback never asks to stop with a nil error, and a cursor is left only when exhausted.
+// lists maps the collection field to the exported elements that must come from it.
+func exportComplete(c *Ctx, o *Obl, pos string, p *Path, lists map[string][]*Term, raw ...map[string]*Term) {
+	// a callback that ends with an error that is established non-nil makes the enumeration
+	// fail (export panics): such a path is not a returning path in reality
+	errNonNil := func(t *Term) bool {
+		if t.IsNil() {
+			return false
+		}
+		return nonNil(t) || p.HasFact(len(p.Events), func(a *Term, pol bool) bool { return !pol && eqAtomS(a, strip(t).String(), "nil") })
+	}
+	for i := range p.Events {
+		ev := &p.Events[i]
+		if ev.Kind == EvCbEnd && ev.Res != nil && ev.Res.Op == "tuple" && len(ev.Res.Args) == 2 && errNonNil(ev.Res.Args[1]) {
+			return
+		}
+	}
+	for i := range p.Events {
+		ev := &p.Events[i]
+		f, m, ok := collOp(ev)
+		if !ok || (m != "Walk" && m != "Iterate") {
+			continue
+		}
+		elems, tracked := lists[f]
+		if !tracked {
+			continue
+		}
+		o.Sites++
+		wkey := ev.Call.String()
+		visited := 0
+		if m == "Walk" {
+			for j := range p.Events {
+				e2 := &p.Events[j]
+				if e2.Kind != EvCbEnd || e2.Call == nil || e2.Call.String() != wkey {
+					continue
+				}
+				visited++
+				if r := e2.Res; r != nil && r.Op == "tuple" && len(r.Args) == 2 && !r.Args[0].IsFalse() {
+					o.Fail(pos, "walk over "+f+" may stop early with a nil error (stop="+trunc(r.Args[0].Key(), 60)+"): the export would be truncated silently", c.Dump(p, j))
+				}
+			}
+		} else {
+			validAt := func(k int64, want bool) bool {
+				return p.HasFact(len(p.Events), func(a *Term, pol bool) bool {
+					if a.Op != "opaque" || a.Name != "itervalid" || len(a.Args) != 2 || a.Args[0].String() != wkey {
+						return false
+					}
+					v, ok := a.Args[1].Int()
+					return ok && v == k && pol == want
+				})
+			}
+			n := int64(0)
+			for validAt(n, true) {
+				n++
+			}
+			if !validAt(n, false) {
+				o.Fail(pos, "the cursor over "+f+" is left before it is exhausted: the export would be truncated silently", c.Dump(p, i))
+			}
+			visited = int(n)
+		}
+		got := 0
+		for _, e := range elems {
+			if strings.Contains(e.String(), wkey) {
+				got++
+			}
+		}
+		if got != visited {
+			extra := ""
+			if len(raw) > 0 && raw[0][f] != nil {
+				extra = "; list = " + trunc(raw[0][f].Key(), 300)
+			}
+			o.Fail(pos, fmt.Sprintf("enumeration of %s visits %d element(s) but %d record(s) reach the exported list%s", f, visited, got, extra), c.Dump(p, i))
+		}
+	}
+}
